@@ -142,6 +142,20 @@ PINNED = [
     ("D6", "B", REG + [method("MAIN", 1), While(loc(0)), stmt("store", ref("BFA0"), loc(1)), close, close, bfield("REG0", "DAT0", byte(1), unit("BFA0")), end],
      "the units of a BankField exist only once the deferred pass has reached it: a While that is read earlier and names one rejects the table"),
 ]
+# fixed programs inside the generated language that are replayed (and judged strictly) on every run next to the enumerated ones:
+# constructs inside deferred blocks that the small TLC scopes only reach in the thorough tier
+PRE = REG + [name("NAM0", byte(7)), {"k": "decl", "kind": "Mutex", "f": F("MUT0"), "args": [byte(1)]}, {"k": "decl", "kind": "Event", "f": F("EVT0"), "args": []},
+             dev("DEV0"), close] + M1
+CORPUS = [
+    PRE + [method("MAIN", 1), While(op("LLess", loc(0), byte(5))), stmt("store", ref("IDX0"), loc(1)), X(op("Notify", ref("DEV0"), byte(1))),
+           stmt("store", ref("NAM0"), ref("DAT0")), inc0, close, ret(ref("IDX0")), close, end],
+    PRE + [method("MAIN", 2), While(loc(0)), stmt("store", op("Match", arg(0), byte(4), byte(7), byte(5), loc(0), zero), loc(1)),
+           stmt("store", vpkg(arg(1), byte(1)), loc(2)), stmt("store", op("Acquire", ref("MUT0"), word(10)), loc(3)), X(op("Release", ref("MUT0"))),
+           X(call("MTH1", op("Add", ref("NAM0"), one))), If(op("Wait", ref("EVT0"), loc(0))), X(op("Reset", ref("EVT0"))), X(op("Break")), close, close, close, end],
+    PRE + [method("MAIN", 1), cfield("CreateQWordField", "QFL0", arg(0), zero), cfield("CreateField", "CFL0", ref("NAM0"), byte(3), byte(9)),
+           stmt("store", buf(call("MTH1", ref("NAM0")), 1, 2), loc(0)), ret(op("Add", call("MTH1", ref("QFL0")), op("SizeOf", ref("NAM0")), loc(1))), close,
+           bfield("REG0", "DAT0", call("MTH1", byte(2)), unit("BFA0", 3), unit("BFA1", 70000)), end],
+]
 REPRESENTATION_NOTES = [
     "representation (no deviation): a name in a SuperName/Target position that is parsed by its declared type (before the first TermArg of its operator, "
     "or anywhere inside a deferred block) is kept as written; the others are resolved; a null target is a Zero node in the first pass and absent in the deferred pass",
@@ -215,6 +229,11 @@ def describe(toks):
 
 
 # ---------------------------------------------------------------------------------------------------------------- helpers
+def note(ctx, text):
+    ctx.note(text)
+    ctx.log("note:", text)
+
+
 def c11_open_ids(ctx):
     """trigger ids of the C11 findings that are still open (known_findings.json is the lead's file; read only)"""
     kf = [f for f in ctx.kf.get("findings", []) if f.get("property") == "C11"]
@@ -379,7 +398,7 @@ def pinned_programs(ctx, c11open):
         has_a = any(kind == "A" for kind, cls, i in vs)
         for kind, cls, i in vs:
             if kind == "B" and cls == "pass":
-                ctx.note("a construct of deviation %s that is left out of the generated language is now parsed as ACPI says: %s" % (dv, describe(PINNED[i][2])))
+                note(ctx, "a construct of deviation %s that is left out of the generated language is now parsed as ACPI says: %s" % (dv, describe(PINNED[i][2])))
         if not has_a:
             if all(cls == "pass" for kind, cls, i in vs) and dv in DEVS:
                 dropped.add(dv)
@@ -389,7 +408,7 @@ def pinned_programs(ctx, c11open):
         # a modelled deviation whose program is not judged OK with the switch on: is the deviation gone?
         v_off = repro(ctx, p_out, env_for([d for d in DEVS if d != dv], c11open), "pinned-without-" + dv)
         if all(v_off[i + 1][0] == [] for i in a_fail):
-            ctx.note("deviation %s is no longer observed (its minimal program is parsed as ACPI says): switch off for this run" % dv)
+            note(ctx, "deviation %s is no longer observed (its minimal program is parsed as ACPI says): switch off for this run" % dv)
             dropped.add(dv)
         else:
             for i in a_fail:
@@ -400,7 +419,7 @@ def pinned_programs(ctx, c11open):
     devs = [d for d in DEVS if d in active and d not in dropped]
     for dv, kind, toks, what in PINNED:
         if dv in devs or (dv in C11_IDS and dv not in dropped):
-            ctx.note("DEVIATION %s (%s, %s): %s | minimal program: %s" % (dv, "modelled" if kind == "A" else "left out of the generated language",
+            note(ctx, "DEVIATION %s (%s, %s): %s | minimal program: %s" % (dv, "modelled" if kind == "A" else "left out of the generated language",
                      "genuine deviation from ACPI inside the claimed grammar" if GENUINE.get(dv) else "by design", what, describe(toks)))
     for n in REPRESENTATION_NOTES:
         ctx.note(n)
@@ -472,6 +491,9 @@ def run(ctx):
                 lines = rnd.sample(lines, cap)
             gf.writelines(lines)
             n_progs += len(lines)
+        for toks in CORPUS:
+            gf.write(json.dumps({"toks": toks}, separators=(",", ":")) + "\n")
+            n_progs += 1
     if not n_progs:
         raise vlib.Broken("the generator model emitted no program")
     g_out, t_out, e_out = os.path.join(ctx.work, "g_trace.ndjson"), os.path.join(ctx.work, "t_trace.ndjson"), os.path.join(ctx.work, "enc_trace.ndjson")
@@ -557,13 +579,13 @@ def enc_pinned(ctx, p_out):
         dv = [p[0] for p in ENC_PINNED if p[1] == c][0]
         acc2, nev2, mism2 = enc_validate(ctx, p_out, [x for x in devs if x != dv], "E-pinned-without-" + dv, parallel=len(ENC_PINNED), timeout=300)
         if not [x for x in mism2 if x["case_events"][0]["c"] == c]:
-            ctx.note("byte-level deviation %s is no longer observed: switch off for this run" % dv)
+            note(ctx, "byte-level deviation %s is no longer observed: switch off for this run" % dv)
             devs.remove(dv)
         else:
             ctx.violation({"leg": "E-pinned", "deviation": dv, "why": m["mismatch"][2:], "case": c}, {"enc_case": m["case_events"][0], "encdevs": devs})
     for dv, c, bs, what in ENC_PINNED:
         if dv in devs:
-            ctx.note("DEVIATION %s (byte level, modelled): %s | minimal case: bytes %s" % (dv, what, " ".join("%02x" % b for b in bs[:12]) + (" ..." if len(bs) > 12 else "")))
+            note(ctx, "DEVIATION %s (byte level, modelled): %s | minimal case: bytes %s" % (dv, what, " ".join("%02x" % b for b in bs[:12]) + (" ..." if len(bs) > 12 else "")))
     return devs
 
 
